@@ -124,7 +124,7 @@ CLAIMED = {
              "copies via Any, callable-and-args factory, _name_default methods with run counters, Tuple and Union with "
              "container members) x 3 instances (one of an overriding subclass, created during the history) x read / "
              "in-place mutation / assign / delete / handler registration / add_trait with a shared trait object; identity "
-             "sharing of mutable defaults between instances or with the class default is checked on every state.",
+             "sharing of mutable defaults between instances or with the class default is checked on every state. Session 4: list-subclass Any default; a name under a declared wildcard with waiting observers.",
         note="Trusted: TLC; views are projected from __dict__, run counters and handler logs (never by reading "
              "attributes). Known finding F12 (class-level caching of resolved names).",
         design="4/C10"),
@@ -226,7 +226,7 @@ CLAIMED = {
                   "generators of the other properties executed against an ASan+UBSan build of /repo's ctraits.c",
         text="Memory safety itself is not decidable by a TLA+ model: the specifications act as program generator and "
              "ledger, AddressSanitizer/UBSan as the monitor. Crash-prone phases run in forked children / a subprocess so "
-             "that a crash is reported as a violation.",
+             "that a crash is reported as a violation. Session 4: CTraitUpdate.tla (a definition's default replaced while a finaliser of the old default reads it) with its 16 programs; ledger loops for accepted / rejected dynamic defaults.",
         note="Trusted: clang ASan/UBSan on the extension only (CPython itself uninstrumented, PYTHONMALLOC=malloc); "
              "refcount deltas are steady-state (K=12 fresh values per loop); other threads not exercised.",
         design="4/C18"),
@@ -240,7 +240,7 @@ CLAIMED = {
              "operations, 11 callback sites (validator, _name_default, property getter/setter, cached getter in a read "
              "and inside a dependency notification, List/Set item validator at its k-th item, adapter factory k, "
              "static/dynamic/observe handlers) x 4 exception classes, with the cached property and the notification "
-             "switch probed after every step.",
+             "switch probed after every step. Session 4: Dict update / |= / item assignment with the key or value validator failing at the k-th pair.",
         note="Trusted: TLC; default notification exception handlers; trait_set with several attributes is a series of "
              "operations (only single-attribute quiet sets are faulted); Dict item validators not faulted.",
         design="4/C19"),
